@@ -6,7 +6,8 @@ From Verif Require Import Bytes Secrets Secrets_Proofs.
 From Gen Require Import Gen_Sinks.
 
 (* T1.  For ALL operation sequences (in-channel telnet / ssh login, get_prompt, send_input, send_inputs_interact,
-   privilege escalation with auth_secondary, repr, str), ALL histories (any chunking, any pattern answers, disconnects,
+   privilege escalation with auth_secondary, repr, str of the driver; str, raise_for_status of any Response and repr
+   of a Response whose channel_input holds no hidden input), ALL histories (any chunking, any pattern answers, disconnects,
    timeouts, blocking reads — failing paths included), the repaired and the unrepaired code alike: if the secrets do not
    occur in the non-secret inputs and the device does not print them, no log record, channel-log write, exception
    message, repr or str contains a secret atom. *)
@@ -44,26 +45,61 @@ Theorem C12_repaired_full : C12_typed_only_when_asked true /\ C12_causal true.
 Proof. exact repaired_full. Qed.
 Print Assumptions C12_repaired_full.
 
+(* The Response / MultiResponse objects handed to the user: str() and raise_for_status() show nothing of the channel
+   input, whatever it holds; repr() shows host, channel_input and failed_when_contains, so the statement for EVERY
+   response is false (the response of a send_interactive with a hidden input: known finding
+   C12-response-repr-hidden-input) and holds outside that region. (T1 above covers these operations: [op_wf]
+   of OpRespRepr is the region's complement.) *)
+Theorem C12_response_repr_full_refuted : ~ C12_resp_repr_full.
+Proof. exact resp_repr_refuted. Qed.
+Print Assumptions C12_response_repr_full_refuted.
+
+Theorem C12_response_observers : forall r,
+  forallb obs_ok (m_resp_str r) = true /\ forallb obs_ok (fst (m_resp_raise r)) = true /\
+  (pub (r_host r) = true -> pub (r_input r) = true -> pub (r_fwc r) = true -> forallb obs_ok (m_resp_repr r) = true).
+Proof. exact resp_observers_ok. Qed.
+Print Assumptions C12_response_observers.
+
 (* tie to the current source tree (Gen_Sinks.v is regenerated on every run): over EVERY logging call, raise and
-   __repr__/__str__ of the anchored files (and the files between them and the credentials), no secret-carrying
-   identifier reaches the message except under the redacted / hidden_input guard *)
-Theorem C12_sinks_guarded : sinks_ok gen_sinks = true.
+   __repr__/__str__ of EVERY module of the scrapli package (the anchored files, the files between them and the
+   credentials, scrapli/response.py, helper.py, factory.py, ...), no secret-carrying identifier reaches the message
+   except under the redacted / hidden_input guard.
+   The full statement is FALSE of the unchanged tree (known finding C12-response-hidden-input: Response.channel_input
+   of a send_interactive is the join of all event inputs, hidden ones included, and Response.__repr__ and the
+   `no template` warning of textfsm_parse_output print it): refuted by computation; the partial statement excludes
+   exactly those two sinks. *)
+Definition C12_sinks_full : Prop := sinks_ok gen_sinks = true.
+
+Theorem C12_sinks_full_refuted : ~ C12_sinks_full /\ forallb known_region (bad_sinks gen_sinks) = true.
+Proof. split; [unfold C12_sinks_full; vm_compute; discriminate | vm_compute; reflexivity]. Qed.
+Print Assumptions C12_sinks_full_refuted.
+
+Theorem C12_sinks_guarded : sinks_ok (outside known_region gen_sinks) = true.
 Proof. vm_compute. reflexivity. Qed.
 Print Assumptions C12_sinks_guarded.
 
 Theorem C12_sinks_guarded_meaning :
-  forall s, In s gen_sinks -> forall id gs, In (id, gs) (s_flows s) -> In id secret_idents ->
+  forall s, In s gen_sinks -> known_region s = false ->
+  forall id gs, In (id, gs) (s_flows s) -> In id secret_idents ->
   exists g, In g gs /\ In g redaction_guards.
-Proof. exact (sinks_ok_sound gen_sinks C12_sinks_guarded). Qed.
+Proof. exact (sinks_ok_outside_sound known_region gen_sinks C12_sinks_guarded). Qed.
 Print Assumptions C12_sinks_guarded_meaning.
 
 (* the extraction is not vacuous: the table is the size the translator says, it sees the secrets arrive (guarded)
-   at the write record and at the interact record, and it contains the three kinds of sink *)
+   at the write record and at the interact record, it sees the joined interact inputs arrive at the Response objects'
+   sinks (the finding's region is inhabited and raise_for_status of Response / MultiResponse are rows outside it),
+   and it contains the three kinds of sink *)
 Example C12_sinks_nonvacuous :
-  length gen_sinks = gen_nsinks /\ (150 <= gen_nsinks)%nat /\
-  existsb (fun s => String.eqb (s_func s) "BaseChannel.write") (secret_sinks gen_sinks) = true /\
-  existsb (fun s => String.eqb (s_func s) "Channel.send_inputs_interact") (secret_sinks gen_sinks) = true /\
-  existsb (fun s => String.eqb (s_func s) "AsyncChannel.send_inputs_interact") (secret_sinks gen_sinks) = true /\
-  (1 <= count_kind SRepr gen_sinks)%nat /\ (50 <= count_kind SRaise gen_sinks)%nat /\ (50 <= count_kind SLog gen_sinks)%nat.
+  length gen_sinks = gen_nsinks /\ (200 <= gen_nsinks)%nat /\
+  func_in "BaseChannel.write" (secret_sinks gen_sinks) = true /\
+  func_in "Channel.send_inputs_interact" (secret_sinks gen_sinks) = true /\
+  func_in "AsyncChannel.send_inputs_interact" (secret_sinks gen_sinks) = true /\
+  func_in "Response.__repr__" (secret_sinks gen_sinks) = true /\
+  func_in "Response.__str__" (outside known_region gen_sinks) = true /\
+  func_in "MultiResponse.__str__" (outside known_region gen_sinks) = true /\
+  func_in "Response.raise_for_status" (outside known_region gen_sinks) = true /\
+  func_in "MultiResponse.raise_for_status" (outside known_region gen_sinks) = true /\
+  func_in "SystemTransport.write" (outside known_region gen_sinks) = true /\
+  (5 <= count_kind SRepr gen_sinks)%nat /\ (50 <= count_kind SRaise gen_sinks)%nat /\ (50 <= count_kind SLog gen_sinks)%nat.
 Proof. vm_compute. repeat split; repeat constructor. Qed.
 Print Assumptions C12_sinks_nonvacuous.
